@@ -73,8 +73,15 @@ def struct_body(draw, env, depth, kind="struct", keywords=False, prefix=""):
             # tags are unique: C gives struct tags file scope, so a repeated tag with another body is not a valid
             # definition (cross-definition collisions are exercised by C13's dedicated collision stage)
             tag = draw(st.sampled_from(["", "", f" tag_{nm}"])) if nm != "_" else ""
+            shape = draw(st.integers(0, 7))
             if anon_member:
                 lines.append(f"{k2} {{ {sub} }};")
+            elif form == 1 and shape == 0:
+                lines.append(f"{k2}{tag} {{ {sub} }} {nm}[{draw(st.integers(1, 3))}][{draw(st.integers(1, 2))}];")  # rows of inline structures
+            elif form == 1 and shape == 1:
+                lines.append(f"{k2}{tag} {{ {sub} }} *{nm}[{draw(st.integers(1, 2))}];")
+            elif form != 1 and shape == 0:
+                lines.append(f"{k2}{tag} {{ {sub} }} *{nm};")  # an inline structure that is only pointed to
             elif form == 1:
                 lines.append(f"{k2}{tag} {{ {sub} }} {nm}[{draw(st.integers(1, 3))}];")
             else:
